@@ -475,6 +475,7 @@ def check(run):
     # ---- D1b base-type dispatch x value kind, D2 string framing
     check_base_types(run, prog, wser, wdes)
     check_block_ids(run, prog)
+    check_history(run, prog, wdes)
 
 
 def classify(d, detail):
@@ -585,6 +586,53 @@ def check_base_types(run, prog, wser, wdes):
                 ok, why = False, f'raises {e}'
             run.check(ok, 'D2', f'TlSchemas[{t} framing]' if not ok else f'{t}[len={L}]', f'{t} of {L} bytes: {why}', wser)
             run.evaluations += 1
+
+
+def check_history(run, prog, wdes):
+    """one schema set serves many parses (it is expensive to build): what a parse returns is a function of its bytes, whatever the same
+    object parsed - or refused - before"""
+    lines = [('x', 'test.w data:bytes = test.W;'), ('x', 'test.vi items:(vector int) = test.Vi;'), ('x', 'test.nop = test.Nop;'), ('x', 'test.n v:int = test.N;')]
+
+    def tid(l):
+        return zlib.crc32(l.rstrip(';').replace('(', '').replace(')', '').encode()).to_bytes(4, 'little')
+
+    def tl_bytes(b):
+        body = bytes([len(b)]) + b
+        return body + b'\x00' * (-len(body) % 4)
+    valid = [tid(lines[0][1]) + tl_bytes(tid(lines[3][1]) + (7).to_bytes(4, 'little')),
+             tid(lines[0][1]) + tl_bytes(tid(lines[0][1]) + tl_bytes(tid(lines[0][1]) + tl_bytes(tid(lines[2][1]))))]
+    malformed = [tid(lines[0][1]) + tl_bytes(tid(lines[1][1]) + b'\x03\x00\x00\x00'),                      # nested vector announcing 3 items, none present
+                 tid(lines[0][1]) + tl_bytes(tid(lines[0][1]) + tl_bytes(tid(lines[1][1]) + b'\x05\x00\x00\x00' + b'\x01\x00\x00\x00'))]
+    run.rule('D5', 'one TlSchemas object, many parses: a parse returns what a fresh object returns for the same bytes, also after parses that were refused', 2)
+    try:
+        fresh = []
+        for raw in valid:
+            it0 = mk(prog)
+            S0, _ = build_schemas(prog, it0, lines)
+            fresh.append(norm(it0, cm.call_method(it0, S0, 'deserialize', K(raw))))
+        it = mk(prog)
+        S, _ = build_schemas(prog, it, lines)
+        refused = 0
+        for rep in range(24):
+            for raw in malformed:
+                it.steps = 0
+                try:
+                    cm.call_method(it, S, 'deserialize', K(raw))
+                except RaiseEx:
+                    refused += 1
+            if rep in (0, 7, 23):
+                for j, raw in enumerate(valid):
+                    it.steps = 0
+                    got = norm(it, cm.call_method(it, S, 'deserialize', K(raw)))
+                    ok = got == fresh[j]
+                    run.check(ok, 'D5', 'TlSchemas.deserialize[after earlier parses]' if not ok else f'history: valid input {j} after {2 * (rep + 1)} malformed ones',
+                              f'after {2 * (rep + 1)} malformed inputs ({refused} refused) the same object parses valid input {j} to ' +
+                              ('what a fresh object returns' if ok else f'{str(got)[:120]}, a fresh object to {str(fresh[j])[:120]}'), wdes)
+                    run.evaluations += 1
+    except RaiseEx as e:
+        run.fail('D5', 'TlSchemas.deserialize[after earlier parses]', f'raises {e}', wdes)
+    except Fail as e:
+        raise AnalysisError(f'TL history scenario: {e}')
 
 
 def check_block_ids(run, prog):
